@@ -856,3 +856,41 @@ Proof.
   intros [|[|k]] p Hk Hp; [contradiction| |destruct k; discriminate].
   vm_compute in Hp. inv Hp. split; vm_compute; reflexivity.
 Qed.
+
+(* ================= the proposed repair (nameref.ResolvedFields) in the model ================= *)
+
+From KV Require Import Res.NameRefResolved.
+
+(* With the repair the two cascade witnesses come out right: the field keeps the name the row of the
+   referent's kind wrote.  (The unrepaired model: cascade_witness / C03_no_retarget_whole_refuted.) *)
+Definition w2_after_r : list resource := unres (nameref_transform_r no_cs no_nonstr gen_rules w2_state).
+
+Example cascade_repaired_hpa :
+  nameref_transform_r no_cs no_nonstr gen_rules w2_state = Ok w2_after_r /\
+  option_map (fun r => get_addr w2_addr (r_node r)) (nth_error w2_after_r 2) = Some (Some (Scalar TNone SPlain "app-s")) /\
+  option_map (fun r => get_name (r_node r)) (nth_error w2_after_r 0) = Some "app-s".
+Proof. split; [vm_compute; reflexivity|]. split; vm_compute; reflexivity. Qed.
+
+(* corpus/C03/builds.json[3]: ConfigMap cm -> p-cm, Secret p-cm -> p-p-cm, ClusterRole resourceNames [cm] *)
+Definition w4_state : list resource := [
+  mkRes (doc "v1" "ConfigMap" "p-cm" []) (Some "cm") (Some "default") (Some "ConfigMap") (Some "p-") None false;
+  mkRes (doc "v1" "Secret" "p-p-cm" []) (Some "p-cm") (Some "default") (Some "Secret") (Some "p-") None false;
+  mkRes (doc "rbac.authorization.k8s.io/v1" "ClusterRole" "p-cr"
+             [("rules", Seq [Map [("resources", Seq [sc "configmaps"]); ("resourceNames", Seq [sc "cm"])]])])
+        (Some "cr") (Some "_non_namespaceable_") (Some "ClusterRole") (Some "p-") None false ].
+Definition w4_cs : string -> string -> bool := fun av k => String.eqb k "ClusterRole".
+Definition w4_addr : list astep := [AKey "rules"; AIdx 0; AKey "resourceNames"; AIdx 0].
+
+Example cascade_repaired_resource_names :
+  option_map (fun r => get_addr w4_addr (r_node r))
+             (nth_error (unres (nameref_transform w4_cs no_nonstr gen_rules w4_state)) 2)
+  = Some (Some (Scalar TNone SPlain "p-p-cm")) /\
+  option_map (fun r => get_addr w4_addr (r_node r))
+             (nth_error (unres (nameref_transform_r w4_cs no_nonstr gen_rules w4_state)) 2)
+  = Some (Some (Scalar TNone SPlain "p-cm")).
+Proof. split; vm_compute; reflexivity. Qed.
+
+(* where no field is shared by several rows the two transformers agree (here: the closed example) *)
+Example resolved_agrees_closed :
+  nameref_transform_r no_cs no_nonstr gen_rules ex_closed_state = nameref_transform no_cs no_nonstr gen_rules ex_closed_state.
+Proof. vm_compute. reflexivity. Qed.
